@@ -15,11 +15,16 @@ let rec int_of_nat = function O -> 0 | S m -> 1 + int_of_nat m
 
 let vn v = "v" ^ string_of_int (int_of_z v)
 let bn b = "b" ^ string_of_int (int_of_z b)
+let codes s = List.init (String.length s) (fun i -> nat_of_int (Char.code s.[i]))
+let text l = String.concat "" (List.map (fun c -> String.make 1 (Char.chr (int_of_nat c))) l)
+(* label text from the model's table of prefixes and widths (col_label); names default to v<i> / b<j> *)
+let vnames : (int * string) list ref = ref []
+let bnames : (int * string) list ref = ref []
+let vname v = codes (try List.assoc (int_of_z v) !vnames with Not_found -> vn v)
+let bname b = codes (try List.assoc (int_of_z b) !bnames with Not_found -> bn b)
 let col_s = function
-  | CVal v -> vn v | CExt v -> "r_" ^ vn v | CVel v -> "v_" ^ vn v | CVelExt v -> "vr_" ^ vn v
-  | CEp v -> "Ep_" ^ vn v | CEk v -> "Ek_" ^ vn v | CFt v -> "ft_" ^ vn v | CFa v -> "fa_" ^ vn v
-  | CBiasE b -> "E_" ^ bn b | CCenter (_, v) -> "x0_" ^ vn v | CWork b -> "W_" ^ bn b
-  | CRef (_, v) -> "ref_" ^ vn v | CCoupling (b, v) -> "ForceConst@" ^ bn b ^ "@" ^ vn v | CGrad (_, v) -> "Grad_" ^ vn v
+  | CCoupling (b, v) -> "ForceConst@" ^ bn b ^ "@" ^ vn v     (* followed by the index of the variable in the bias *)
+  | c -> text (col_label vname bname c)
 let src_s = function
   | SX v -> "x:" ^ vn v | SXrep v -> "xrep:" ^ vn v | SVfd v -> "vfd:" ^ vn v | SVrep v -> "vrep:" ^ vn v
   | SEp v -> "ep:" ^ vn v | SEk v -> "ek:" ^ vn v | SFt v -> "ft:" ^ vn v | SFa v -> "fa:" ^ vn v
@@ -60,7 +65,14 @@ let () =
                 bf_chg_k = d; bf_acc_work = e; bf_coupling = f; bf_grad = g }) in
           { c_vars = vars; c_biases = biases } in
         (match w.(0) with
-         | "TRAJ" ->
+         | "TRAJ" | "TRAJN" ->
+           vnames := []; bnames := [];
+           if w.(0) = "TRAJN" then begin
+             let nvn = ni () in
+             vnames := List.init nvn (fun _ -> let i = ni () in let s = next () in (i, s));
+             let nbn = ni () in
+             bnames := List.init nbn (fun _ -> let i = ni () in let s = next () in (i, s))
+           end;
            let freq = nz () in
            let c0 = cfg () in
            let nev = ni () in
@@ -90,10 +102,38 @@ let () =
          | "LABEL" ->
            (* LABEL width prefix|- name : characters as they are *)
            let width = nn () in let pre = next () in let name = next () in
-           let codes s = List.init (String.length s) (fun i -> nat_of_int (Char.code s.[i])) in
            let pre = if pre = "-" then "" else pre in
            let tok = label_token (codes pre) (codes name) width in
-           Printf.printf "%s\n" (String.concat "" (List.map (fun c -> String.make 1 (Char.chr (int_of_nat c))) tok))
+           Printf.printf "%s\n" (text tok)
+         | "LFRUN" ->
+           (* LFRUN n (rel enabled f)* -> ft after each evaluation *)
+           let n = ni () in
+           let h = List.init n (fun _ -> let r = nn () in let e = nb () in let f = nf () in ((r, e), f)) in
+           let rec go s acc = function
+             | [] -> List.rev acc
+             | e :: r -> let s1 = lf_run s [e] in go s1 (hex s1.lf_ft :: acc) r in
+           Printf.printf "%s\n" (String.concat " " (go (lf0 fops) [] h))
+         | "MULTICOL" ->
+           (* MULTICOL nd (n lower width)* nvals v.. -> "B" / "D c,c | v" lines joined by " ; "  (one value per record) *)
+           let nd = ni () in
+           let dims = List.init nd (fun _ -> let n = nn () in let l = nf () in let w = nf () in (n, (l, w))) in
+           let nv = ni () in
+           let vals = Array.init nv (fun _ -> nf ()) in
+           let nx = List.map fst dims in let geom = List.map snd dims in
+           let nxi = List.map int_of_nat nx in
+           let addr ix = List.fold_left2 (fun acc i n -> acc * n + int_of_nat i) 0 ix nxi in
+           let ls = write_multicol fops nx geom (fun ix -> [vals.(addr ix)]) in
+           Printf.printf "%s\n" (String.concat " ; " (List.map (function
+               | MBlank -> "B"
+               | MData (c, v) -> "D " ^ String.concat "," (List.map hex c) ^ " | " ^ String.concat "," (List.map hex v)) ls))
+         | "DISK" ->
+           (* DISK rfreq freq it_restart <cfg> n it.. -> number of lines on disk after each calc (no spill) *)
+           let rf = nz () in let freq = nz () in let itr = nz () in let c0 = cfg () in let n = ni () in
+           let its = List.init n (fun _ -> nz ()) in
+           let s0 = { t_freq = freq; t_cfg = c0; t_labels = true; t_it_restart = itr } in
+           let rec prefixes acc = function [] -> [] | x :: r -> let a = acc @ [x] in a :: prefixes a r in
+           let counts = List.map (fun pre -> let (d, _) = buf_run [] [] (traj_bevents rf s0 pre) in List.length d) (prefixes [] its) in
+           Printf.printf "%s\n" (String.concat " " (List.map string_of_int counts))
          | "ABFHIST" ->
            let hf = nz () in let n = ni () in
            let w = List.init n (fun _ -> nz ()) in
